@@ -165,6 +165,50 @@ def model_check_pay(binary, workdir, tier):
     return res
 
 
+MC_FAMILIES = {  # cfg file, (quick depth, thorough depth)
+    "did": ("MC_Did.cfg", (6, 8)), "super": ("MC_Super.cfg", (6, 8)), "reward": ("MC_Reward.cfg", (6, 7)), "auth": ("MC_Auth.cfg", (6, 7)),
+}
+MC_FAMILY_CFG = {"accounts": 8, "dids": 2, "validators": 1, "balance": 100000, "blockReward": 840}
+
+
+def model_check_families(binary, workdir, tier):
+    """Exhaustive TLC runs of the further MC.tla families (did, super, reward, auth) from the real genesis state."""
+    out = {}
+    for fam, (cfgfile, depths) in MC_FAMILIES.items():
+        d = os.path.join(workdir, fam)
+        stage_spec(d)
+        rc, o, _ = run([binary, "genesis", "--cfg", json.dumps(MC_FAMILY_CFG), "--out", os.path.join(d, "genesis.json")])
+        if rc != 0:
+            raise MachineryError("genesis failed: " + o[-1000:])
+        depth = depths[0] if tier == "quick" else depths[1]
+        import re as _re
+        cfg = _re.sub(r"MaxEvents = \d+", "MaxEvents = %d" % depth, open(os.path.join(d, cfgfile)).read())
+        open(os.path.join(d, cfgfile), "w").write(cfg)
+        ce = os.path.join(d, "ce.json")
+        rc, output, wall = tlc(d, "MC.tla", cfgfile, workers=16, timeout=900 if tier == "quick" else 2400, extra=["-dumpTrace", "json", ce])
+        open(os.path.join(d, "tlc.out"), "w").write(output)
+        m = None
+        for m in TLC_STATS.finditer(output):
+            pass
+        r = {"depth": depth, "states": int(m.group(2)) if m else 0, "generated": int(m.group(1)) if m else 0, "wall_s": round(wall, 1),
+             "complete": "Model checking completed. No error has been found." in output, "counterexample_trace": None, "spec_violation": None}
+        if "is violated" in output and os.path.exists(ce):
+            dd = json.load(open(ce))
+            states = [x[1] for x in dd["counterexample"]["state"]]
+            r["spec_violation"] = sorted(states[-1]["bad"])
+            beh = os.path.join(d, "cebeh")
+            os.makedirs(beh, exist_ok=True)
+            json.dump(states[-1]["hist"], open(os.path.join(beh, "beh_ce_%s.json" % fam), "w"))
+            rc2, o2, _ = run([binary, "replay", "--in", beh, "--out", os.path.join(d, "cereal"), "--cfg", json.dumps(MC_FAMILY_CFG)], timeout=600)
+            if rc2 not in (0, 3):
+                raise MachineryError("replay of the model counterexample failed: " + o2[-1000:])
+            r["counterexample_trace"] = os.path.join(d, "cereal", "beh_ce_%s.ndjson" % fam)
+        elif not r["complete"] and r["states"] == 0:
+            raise MachineryError("TLC model checking of family %s failed: %s" % (fam, output[-2000:]))
+        out[fam] = r
+    return out
+
+
 def validate_traces(files, workdir, timeout=3000):
     """Concatenate traces, run TLC with Trace.tla, parse per-formula counts and violations."""
     stage_spec(workdir)
@@ -231,8 +275,14 @@ def family_run(tier, seed, use_cache=True):
         if mc["counterexample_trace"]:
             files.append(mc["counterexample_trace"])
             dstats["traces"] += 1
+        fams = model_check_families(binary, os.path.join(rdir, "mcf"), tier)
+        for r in fams.values():
+            if r["counterexample_trace"]:
+                files.append(r["counterexample_trace"])
+                dstats["traces"] += 1
         val = validate_traces(files, os.path.join(rdir, "tlc"))
         val["mc"] = mc
+        val["mc_families"] = fams
         # sample: the event kinds of the first trace
         sample = []
         with open(files[0]) as fh:
@@ -330,9 +380,12 @@ def run_property(pid, tier, seed, use_cache=True):
             mine.update(extra)
             viol += [v for v in sel["violations"] if v["formula"].startswith(pid + "_") or (pid == "C15" and v["formula"].startswith("Conf_"))]
         mc = val.get("mc") or {"states": 0, "generated": 0}
+        fams = val.get("mc_families") or {}
+        mstates = mc["states"] + sum(r["states"] for r in fams.values())
+        mtrans = mc["generated"] + sum(r["generated"] for r in fams.values())
         cov = {
-            "states": mc["states"] + val["states"], "transitions": mc["generated"] + max(1, val["states"] - fam["driver"]["traces"]),
-            "model_states_exhaustive": mc["states"], "model_transitions_exhaustive": mc["generated"], "model_check": mc,
+            "states": mstates + val["states"], "transitions": mtrans + max(1, val["states"] - fam["driver"]["traces"]),
+            "model_states_exhaustive": mstates, "model_transitions_exhaustive": mtrans, "model_check": dict(fams, pay=mc),
             "observed_states": val["states"],
             "traces_validated_against_impl": fam["driver"]["traces"],
             "samples": [fam["sample"]],
